@@ -114,6 +114,38 @@ theorem no_query_route_outside_subrouter :
       Refinery.Gen.QueryAuth.queryRouteCount = Refinery.Gen.QueryAuth.queryRoutes.length ∧
       0 < Refinery.Gen.QueryAuth.queryRouteCount := by decide
 
+/-! ## Request method -/
+
+/-- the `/query/` sub-router accepts exactly `GET` (`facts`, read off the walked mux): accepting a
+further method is a change this obligation flags -/
+theorem query_methods_from_code : Refinery.Gen.QueryAuth.queryMethods = ["GET"] := by decide
+
+/-- **no data without the token, whatever the method**: through the router a request is answered
+with data only if its method is one the sub-router accepts, a non-empty token is configured and the
+first header value is exactly that token. -/
+theorem no_data_without_token_any_method (method cfgTok : String) (vals : List String)
+    (h : routerRespond method cfgTok vals = .handled .data) :
+    method ∈ Refinery.Gen.QueryAuth.queryMethods ∧ cfgTok ≠ "" ∧ headerGet vals = cfgTok := by
+  unfold routerRespond at h
+  by_cases hm : method ∈ Refinery.Gen.QueryAuth.queryMethods
+  · have hc : Refinery.Gen.QueryAuth.queryMethods.contains method = true := by simpa using hm
+    simp only [hc, if_true, RResp.handled.injEq] at h
+    exact ⟨hm, (query_auth_spec cfgTok vals).mp h⟩
+  · have hc : Refinery.Gen.QueryAuth.queryMethods.contains method = false := by simpa using hm
+    simp only [hc, Bool.false_eq_true, if_false] at h
+    cases h
+
+/-- every other method is not handled by the router at all (relayed upstream) -/
+theorem other_methods_proxied (method cfgTok : String) (vals : List String)
+    (hm : method ∉ Refinery.Gen.QueryAuth.queryMethods) :
+    routerRespond method cfgTok vals = .proxied := by
+  unfold routerRespond
+  have hc : Refinery.Gen.QueryAuth.queryMethods.contains method = false := by simpa using hm
+  simp only [hc, Bool.false_eq_true, if_false]
+
+example : routerRespond "OPTIONS" "tok" ["tok"] = .proxied := by decide
+example : routerRespond "GET" "tok" ["tok"] = .handled .data := by decide
+
 /-! ## Reloads -/
 
 /-- the token in force after a history is the last reloaded one (the initial one if there was no reload) -/
